@@ -346,6 +346,8 @@ func (stmt *InjectorFieldAccessStmt) HasAsync() bool {
 type Injector struct {
 	Return        *InjectorReturn
 	Name          string
+	egName        string // name of the errgroup variable (set when goroutines are generated)
+	ctxName       string // name of the variable holding the errgroup's derived context
 	Params        []*InjectorParam
 	Args          []*InjectorArgument
 	Vars          []*InjectorParam
